@@ -147,9 +147,31 @@ EXTRA6 = {
 }
 for _pid, _t in EXTRA6.items():
     EXTRA[_pid] = EXTRA.get(_pid, '') + ' ' + _t
+EXTRA7 = {
+ 'C01': 'Every other root shape is primed: once per process all its entries are derived by entry, by name and by type before a case\'s own request.',
+ 'C03': 'The listing returned by hseq.New is reordered, overwritten and cut by the caller before the type is unfolded again.',
+ 'C04': 'Join chains nested to the left and to the right whose head is a map lens or a BiMap-converted lens.',
+ 'C05': 'Volumes of 2^18+1 and 2^20+7 elements (2^22+1 thorough) through Seq with buffer reuse, ToSeq from a live producer, a stage chain and Fold; Take/TakeWhile/Seq/ToSeq also through package fork\'s wrappers.',
+ 'C06': 'Every stage built under an already cancelled or expired context (nobody receiving); Join copiers racing for the last output slot, then close and cancel with nobody receiving (300 rounds per program).',
+ 'C08': 'A backlog of 2^18+1 and 2^20+7 values (2^22+1 thorough) produced first and consumed afterwards; pipe.New under a context that is already done.',
+ 'C09': 'fork stages built under a context that is already done.',
+ 'C10': 'Folds of 2^18+1 ... 2^21 elements with 1-3 workers; 32 KiB histogram values with 1024, 1025 and 1500 workers.',
+ 'C11': 'Emit and Unfold through package fork\'s wrappers as well; under contexts already done at the call; Emit under a deadline at every quarter tick; Emit on the real clock (lower bounds only: no call or value before its tick, calls one tick apart).',
+ 'C12': 'fork.Join as a second variant of every Join program; a pre-buffered input of 2^18+1 / 2^20+7 elements (per-input order); thorough: 300 inputs of 1 MiB elements.',
+ 'C13': 'fork.Throttling as a second variant; Throttling on the real clock (3000-6000 elements at 1 ms), judged by lower bounds only (never earlier than the rate allows, never more per window than stated).',
+ 'C14': 'Predicate families with memory (first occurrence, every third call), one instance per node and evaluation; once the ForEach visitor has returned its error no callback of the expression may run.',
+ 'C15': 'Predicate families with memory over pairs; the same stop-after-error monitor for pair.ForEach.',
+ 'C16': 'Sequence nodes are visited again from depth 0 and from a deeper level too (same callbacks, shifted depths) and with a visitor failing at the last callback.',
+ 'C18': 'Node heights are steered: among 96 clock seeds x 10^6 draws of the seeded generator the largest and the smallest draw are located and the histories reaching exactly those puts are run; string keys containing a per cent sign.',
+ 'C20': 'Round-trip pipelines (argument and result of one type, stages through a second type).',
+}
+for _pid, _t in EXTRA7.items():
+    EXTRA[_pid] = EXTRA.get(_pid, '') + ' ' + _t
 for _pid, _t in EXTRA.items():
     TEXT[_pid]['text'] += ' ' + _t
 TEXT['C09']['note'] = 'Fail-fast (Lift) mode is exercised at scale only for closure, no-leak and "errors only for failing elements" (which workers fail first is not determined); the multiset verdict is for Pure and Try modes. Distinct output orders are counted per child process.'
+TEXT['C13']['note'] += ' The real-clock soak judges lower bounds only, which machine load cannot break.'
+TEXT['C18']['note'] += ' Steering uses the reproducibility of math/rand\'s seeded source to choose histories; it is not part of the oracle.'
 TEXT['C16']['note'] += ' Nodes handed to callbacks are taken to be visitable ASTs (duct.Ast), whose visit reproduces their part of the trace.'
 TEXT['C04']['note'] += ' An optic value is taken to be usable from several goroutines at once on distinct structures (optics are stateless values).'
 TEXT['C15']['note'] += ' The stack limit of the long-sequence family extrapolates linearly: stack proportional to the skipped elements overflows the default 1 GB limit at a few 10^7 elements.'
